@@ -202,7 +202,7 @@ def gen_history(rng, item_ids, n_ops, limit, refs):
         elif r < 0.50:
             ops.append({'op': 'decode', 'item': it, 'slot': slot})
         elif r < 0.70:
-            seq = [rng.choice(list(O.RENDER_KINDS) + ['query', 'values']) for _ in range(rng.randrange(1, 5))]
+            seq = [rng.choice(list(O.RENDER_KINDS) + ['query', 'values', 'wire']) for _ in range(rng.randrange(1, 5))]
             ops.append({'op': 'decode+observe', 'item': it, 'slot': slot, 'seq': seq})
         elif r < 0.82:
             ops.append({'op': 'encode', 'item': it, 'slot': slot, 'eslot': rng.randrange(len(CACHE_MAXES))})
@@ -357,6 +357,13 @@ def run(ctx):
         if L == real_limit:
             # make sure the real limit is reached: every synthetic item once, first
             ops = [{'op': 'decode', 'item': it['id'], 'slot': rng.randrange(len(CACHE_MAXES))} for it in synth] + ops
+        # several wiring observations on the SAME object of a compressed multi-subset message (one node tree shared by
+        # all subsets: wiring it a second time must change nothing), and of an uncompressed one
+        wired = [i for i in ids if i in ('r:open204-c', 'r:open201-c', 'r:open207-c', 'r:victim-c1', 'r:victim-c2', 'r:victim-c3',
+                                         'r:bitmap', 'r:nest1-a')]
+        for i in rng.sample(wired, min(3, len(wired))):
+            seq = ['wire', rng.choice(['nested', 'nestedtext', 'query']), 'wire', rng.choice(['nested', 'nestedtext', 'query']), 'nested']
+            ops.insert(rng.randrange(len(ops) + 1), {'op': 'decode+observe', 'item': i, 'slot': rng.randrange(len(CACHE_MAXES)), 'seq': seq})
         for op in ops:
             if op['op'] == 'decode+observe':
                 op['path'] = refs[op['item']].get('path', '001001')
@@ -408,7 +415,7 @@ def run(ctx):
             for k, v in obs.items():
                 if k == 'seq':
                     for kind, got in zip(op['seq'], v):
-                        want = ref['decode'] if kind == 'values' else ref.get(kind)
+                        want = ref['decode'] if kind == 'values' else 'ok' if kind == 'wire' else ref.get(kind)
                         ctx.dist['obs-' + kind] += 1
                         if got != want:
                             ctx.violation(dict(case, kind='history-dependence', observation=kind, after=op['seq'],
